@@ -327,11 +327,28 @@ def build_env(B, case, recs, elems):
     env = {'fgg': fgg, 'opts': dict(case.get('opts', {})), 'user_tensors': tensors}
     if case.get('conjoin'):
         env['other'] = grammars.build_fgg(case['conjoin'], B.fggs, None, explicit_ids=True)
+    env['twin'] = make_twin(B.fggs, fgg)
     return env
+
+
+def make_twin(fggs, h):
+    """an HRG equal (==) to h, assembled through the public API from h's observable parts"""
+    t = fggs.HRG(h.start)
+    for l in h.node_labels():
+        t.add_node_label(l)
+    for l in h.edge_labels():
+        t.add_edge_label(l)
+    for r in h.all_rules():
+        t.add_rule(r)
+    return t
 
 
 def snap_env(env):
     s, tensors = snap_hrg(env['fgg'])
+    if 'twin' in env:
+        # the library's own equality against a twin assembled before the history (sees what the accessors hide, e.g. empty rule lists)
+        s['eq_twin'] = [bool(env['fgg'] == env['twin']), bool(env['twin'] == env['fgg'])]
+        s['twin_rules'] = [[l.name, len(env['fgg'].rules(l))] for l in sorted(env['fgg'].nonterminals(), key=lambda l: l.name)]
     if 'other' in env:
         s2, _ = snap_hrg(env['other'])
         s = {'fgg': s, 'other': s2}
